@@ -799,3 +799,147 @@ Proof. intros R. apply run_from_safe; [exact R|apply tm_safe_nil]. Qed.
 (* the shipped registry (regenerated): every numeric element has its type's width *)
 Lemma registry_safe : reg_safe registry = true.
 Proof. vm_compute. reflexivity. Qed.
+
+(* ================= completeness: what the specification accepts, the decoder delivers ========= *)
+Lemma rd_complete k buf : (k <= length buf)%nat -> rd k buf = Ok (bed (firstn k buf), skipn k buf).
+Proof. intros H. unfold rd. rewrite short_ltb. destruct (Nat.ltb_spec (length buf) k); [lia|reflexivity]. Qed.
+
+Lemma short_false buf n : short buf n = false -> (n <= length buf)%nat.
+Proof. rewrite short_ltb. destruct (Nat.ltb_spec (length buf) n); [discriminate|lia]. Qed.
+
+Lemma read_header_complete bytes :
+  short bytes 20 = false ->
+  read_header bytes = Ok (bed (firstn 2 bytes), wire_hdr bytes, wire_setid bytes,
+                          bed (firstn 2 (skipn 18 bytes)), skipn 20 bytes).
+Proof.
+  intros S. apply short_false in S. unfold read_header.
+  rewrite (rd_complete 2 bytes) by lia. cbn [obind].
+  rewrite (rd_complete 2 (skipn 2 bytes)) by (rewrite skipn_length; lia). cbn [obind].
+  rewrite !skipn_skipn. cbn [Nat.add].
+  rewrite (rd_complete 4 (skipn 4 bytes)) by (rewrite skipn_length; lia). cbn [obind].
+  rewrite !skipn_skipn. cbn [Nat.add].
+  rewrite (rd_complete 4 (skipn 8 bytes)) by (rewrite skipn_length; lia). cbn [obind].
+  rewrite !skipn_skipn. cbn [Nat.add].
+  rewrite (rd_complete 4 (skipn 12 bytes)) by (rewrite skipn_length; lia). cbn [obind].
+  rewrite !skipn_skipn. cbn [Nat.add].
+  rewrite (rd_complete 2 (skipn 16 bytes)) by (rewrite skipn_length; lia). cbn [obind].
+  rewrite !skipn_skipn. cbn [Nat.add].
+  rewrite (rd_complete 2 (skipn 18 bytes)) by (rewrite skipn_length; lia). cbn [obind].
+  rewrite !skipn_skipn. cbn [Nat.add]. reflexivity.
+Qed.
+
+Lemma resolve_complete m reg id ent wl :
+  (m = Strict -> spec_known reg (id, ent, wl) = true) ->
+  resolve m reg id ent wl = Ok (spec_elem reg (id, ent, wl)).
+Proof.
+  unfold resolve, spec_elem, spec_known. destruct (reg_lookup reg id ent); [reflexivity|].
+  destruct m; try reflexivity. intros H. specialize (H eq_refl). discriminate.
+Qed.
+
+Lemma decode_tfields_complete m reg n : forall buf wf,
+  wire_fields n buf = Some wf ->
+  (m = Strict -> forallb (spec_known reg) wf = true) ->
+  forallb zero_ok (map (spec_elem reg) wf) = true ->
+  exists rest, decode_tfields m reg n buf = Ok (map (spec_elem reg) wf, rest).
+Proof.
+  induction n as [|n IH]; intros buf wf; cbn [wire_fields decode_tfields].
+  - intros E _ _. assert (wf = []) as -> by congruence. eauto.
+  - destruct buf as [|a [|b [|c [|d r]]]]; try discriminate.
+    pose proof (bed2 a b) as B. pose proof (b2n_lt b) as Bb.
+    unfold decode_tfield, rd. cbn [short firstn skipn obind]. rewrite ?short_0. cbn [obind].
+    destruct (N.ltb_spec (b2n a) 128) as [L|L].
+    + destruct (wire_fields n r) as [wf1|] eqn:W1; [|discriminate]. cbn [option_map].
+      intros E. assert (wf = (bed [a; b], 0, bed [c; d]) :: wf1) as -> by congruence.
+      cbn [forallb map]. intros Hs Hz. apply andb_true_iff in Hz as [Hz1 Hz2].
+      destruct (N.ltb_spec (bed [a; b]) 32768); [|lia].
+      rewrite resolve_complete.
+      2:{ intros M. specialize (Hs M). now apply andb_true_iff in Hs as [Hs1 _]. }
+      cbn [obind]. unfold zero_ok in Hz1.
+      destruct (zero_value (ie_dt (spec_elem reg (bed [a; b], 0, bed [c; d])))); try discriminate. cbn [obind].
+      destruct (IH r wf1 W1) as [rest Hr]; [|assumption|].
+      { intros M. specialize (Hs M). now apply andb_true_iff in Hs as [_ Hs2]. }
+      rewrite Hr. cbn [obind]. eauto.
+    + destruct r as [|e1 [|e2 [|e3 [|e4 r']]]]; try discriminate.
+      destruct (wire_fields n r') as [wf1|] eqn:W1; [|discriminate]. cbn [option_map].
+      intros E. assert (wf = (bed [a; b] - 32768, bed [e1; e2; e3; e4], bed [c; d]) :: wf1) as -> by congruence.
+      cbn [forallb map]. intros Hs Hz. apply andb_true_iff in Hz as [Hz1 Hz2].
+      destruct (N.ltb_spec (bed [a; b]) 32768); [lia|].
+      cbn [short firstn skipn obind]. rewrite ?short_0. cbn [obind].
+      rewrite resolve_complete.
+      2:{ intros M. specialize (Hs M). now apply andb_true_iff in Hs as [Hs1 _]. }
+      cbn [obind]. unfold zero_ok in Hz1.
+      destruct (zero_value (ie_dt (spec_elem reg (bed [a; b] - 32768, bed [e1; e2; e3; e4], bed [c; d])))); try discriminate. cbn [obind].
+      destruct (IH r' wf1 W1) as [rest Hr]; [|assumption|].
+      { intros M. specialize (Hs M). now apply andb_true_iff in Hs as [_ Hs2]. }
+      rewrite Hr. cbn [obind]. eauto.
+Qed.
+
+Lemma hdr_ok_inv bytes : hdr_ok bytes = true -> short bytes 20 = false /\ N.eqb (bed (firstn 2 bytes)) 10 = true.
+Proof. unfold hdr_ok. intros H. apply andb_true_iff in H as [H1 H2]. split; [now destruct (short bytes 20)|exact H2]. Qed.
+
+Lemma spec_template_complete m reg tm bytes h tid es :
+  spec_template m reg bytes = Some (h, tid, es) ->
+  decode_packet m reg tm bytes = (Ok (TemplateMsg h tid es), tm_add tm (h_obs h) tid es).
+Proof.
+  unfold spec_template.
+  destruct (hdr_ok bytes) eqn:H; [|discriminate]. cbn [andb].
+  destruct (N.eqb (wire_setid bytes) c_entities_TemplateSetID) eqn:T; [|discriminate]. cbn [andb].
+  destruct (short bytes 24) eqn:S24; [discriminate|]. cbn [negb].
+  destruct (wire_fields _ _) as [wf|] eqn:W; [|discriminate].
+  destruct ((match m with Strict => forallb (spec_known reg) wf | _ => true end) && _) eqn:C; [|discriminate].
+  apply andb_true_iff in C as [C1 C2].
+  intros E. assert (h = wire_hdr bytes /\ tid = wire_tid bytes /\ es = map (spec_elem reg) wf) as (-> & -> & ->)
+    by (repeat split; congruence).
+  apply hdr_ok_inv in H as [S20 V]. apply short_false in S24.
+  unfold decode_packet. rewrite (read_header_complete bytes S20), V, T. cbn [negb].
+  unfold decode_template_set.
+  rewrite (rd_complete 2 (skipn 20 bytes)) by (rewrite skipn_length; lia). cbn [obind].
+  rewrite !skipn_skipn. cbn [Nat.add].
+  rewrite (rd_complete 2 (skipn 22 bytes)) by (rewrite skipn_length; lia). cbn [obind].
+  rewrite !skipn_skipn. cbn [Nat.add].
+  destruct (decode_tfields_complete m reg _ _ wf W) as [rest Hr]; [|assumption|].
+  { intros ->. exact C1. }
+  unfold wire_count in Hr. rewrite Hr. reflexivity.
+Qed.
+
+Lemma spec_packet_data_complete m reg tm bytes h tid rs :
+  spec_packet_data m tm bytes = Some (h, tid, rs) ->
+  decode_packet m reg tm bytes = (Ok (DataMsg h tid rs), tm).
+Proof.
+  unfold spec_packet_data.
+  destruct (hdr_ok bytes) eqn:H; [|discriminate]. cbn [andb].
+  destruct (N.eqb (wire_setid bytes) c_entities_TemplateSetID) eqn:T; [discriminate|]. cbn [negb].
+  destruct (tm_lookup tm (wire_obs bytes) (wire_setid bytes)) as [tpl|] eqn:L; [|discriminate].
+  destruct (spec_data (keep_of m) tpl (wire_body bytes)) as [rs0|] eqn:Sd; [|discriminate].
+  cbn [option_map]. intros E.
+  assert (h = wire_hdr bytes /\ tid = wire_setid bytes /\ rs0 = rs) as (-> & -> & ->) by (repeat split; congruence).
+  apply hdr_ok_inv in H as [S20 V].
+  unfold decode_packet. rewrite (read_header_complete bytes S20), V, T. cbn [negb].
+  unfold decode_data_set. change (h_obs (wire_hdr bytes)) with (wire_obs bytes). rewrite L.
+  apply spec_data_decode in Sd. unfold wire_body in Sd. rewrite Sd. reflexivity.
+Qed.
+
+(* decode_packet refines the specification: same message, and an error exactly when the byte
+   string denotes no message *)
+Lemma decode_packet_refines m reg tm bytes :
+  tm_safe tm ->
+  match fst (decode_packet m reg tm bytes) with
+  | Ok msg => spec_packet m reg tm bytes = Some msg
+  | Err _ => spec_packet m reg tm bytes = None
+  | Panic | OutOfFuel => False
+  end.
+Proof.
+  intros S. destruct (decode_packet_total m reg tm bytes S) as [P F].
+  destruct (decode_packet m reg tm bytes) as [o tm'] eqn:D. cbn [fst] in *.
+  destruct o as [[h tid es|h tid rs]|k| |]; try congruence.
+  - destruct (decode_packet_template _ _ _ _ _ _ _ _ D) as [Sp _]. unfold spec_packet. now rewrite Sp.
+  - destruct (decode_packet_data _ _ _ _ _ _ _ _ D) as [Sp _]. unfold spec_packet.
+    destruct (spec_template m reg bytes) as [[[h' tid'] es']|] eqn:St.
+    + rewrite (spec_template_complete m reg tm bytes _ _ _ St) in D. discriminate.
+    + now rewrite Sp.
+  - unfold spec_packet.
+    destruct (spec_template m reg bytes) as [[[h' tid'] es']|] eqn:St.
+    + rewrite (spec_template_complete m reg tm bytes _ _ _ St) in D. discriminate.
+    + destruct (spec_packet_data m tm bytes) as [[[h' tid'] rs']|] eqn:Sd; [|reflexivity].
+      rewrite (spec_packet_data_complete m reg tm bytes _ _ _ Sd) in D. discriminate.
+Qed.
